@@ -101,6 +101,11 @@ def run(res, tier):
     for s in sigs:
         for (cond, labels) in C.switch_guards_of_block(f, P.pos_of(f, s)[0]):
             sw[(s.get('q') or '').split('::')[-1]] = labels
+        # the same dispatch written as an if/else-if chain: a dominating `whichQueue == K`
+        for (cn, t) in G.atoms_at(f, s):
+            for (l_, op_, r_) in A.rel_forms(cn, t):
+                if op_ == '==' and r_.get('v') is not None and l_.get('d') == f.params[0]['d']:
+                    sw.setdefault((s.get('q') or '').split('::')[-1], set([r_['v']]))
     mi, mo = fx.enum_const('MESSAGE_THREAD_INTERNAL'), fx.enum_const('MESSAGE_THREAD_OWNER')
     ok = sw.get('SignalInternalThread') == set([mi]) and sw.get('SignalOwner') == set([mo])
     res.ob('SEND-ORDER', f.where(), 'queue INTERNAL => SignalInternalThread, queue OWNER => SignalOwner', ok, how=str(sw), function=f.q, key='SEND-ORDER|%s|side' % f.q,
